@@ -123,6 +123,8 @@ var Axes = []C3{
 	{X: 1}, {Y: 1}, {Z: 1}, {Z: -1},
 	{X: 1, Y: 1}, {Y: 1, Z: -1}, {X: 1, Y: 1, Z: 1}, {X: -1, Y: 2, Z: 0.5},
 	{X: 1, Y: 1e-3}, {X: 1e-3, Y: 1, Z: 1}, {X: 0.3, Y: -0.2, Z: 0.9},
+	// tilted away from a coordinate axis by less than any "is it axis-aligned" threshold one might be tempted to use
+	{X: 1, Y: 8e-6}, {X: 2e-6, Y: -1e-7, Z: 1},
 }
 
 // Shapes3 is the primitive alphabet. full adds more parameter combinations.
@@ -139,7 +141,7 @@ func Shapes3Scaled(full bool, k float64) []Shape3 {
 	axes := Axes
 	if !full {
 		centers = centers[1:]
-		axes = []C3{{Z: 1}, {X: 1, Y: 1}, {X: -1, Y: 2, Z: 0.5}, {X: 1, Y: 1e-3}, {X: 0.3, Y: -0.2, Z: 0.9}}
+		axes = []C3{{Z: 1}, {X: 1, Y: 1}, {X: -1, Y: 2, Z: 0.5}, {X: 1, Y: 1e-3}, {X: 0.3, Y: -0.2, Z: 0.9}, {X: 1, Y: 8e-6}}
 	}
 	for _, c := range centers {
 		for _, r := range radii {
@@ -184,6 +186,14 @@ func SmoothNormal(f func(C3) float64, p C3, scale, feature float64) (n, nearest 
 		return C3{}, C3{}, false
 	}
 	n = g.Scale(-1 / g.Norm())
+	// the query itself must not sit next to the medial axis (a symmetry axis a few h away): there the direction
+	// of the gradient turns over a distance comparable to the difference step, and the estimate depends on h
+	for _, k := range []float64{10, 100} {
+		gk := Grad(f, p, k*h)
+		if math.Abs(gk.Norm()-1) > 1e-3 || gk.Scale(-1/gk.Norm()).Dist(n) > 2e-4 {
+			return n, C3{}, false
+		}
+	}
 	d := f(p)
 	nearest = p.Add(n.Scale(d))
 	if math.Abs(f(nearest)) > 1e-5*scale {
